@@ -148,6 +148,9 @@ func cmdRun(args []string) int {
 		return 2
 	}
 	fmt.Printf("simcheck: wove %d files of %s (%.1fs), built harness (%.1fs)\n", len(ws.Report.Files), repoDir(), ws.WeaveS, ws.BuildS)
+	for _, u := range ws.Report.Unwoven {
+		fmt.Printf("simcheck: warning: seam not owned by the simulator: %s\n", u)
+	}
 
 	replayDir := filepath.Join(verifDir(), "replays")
 	os.MkdirAll(replayDir, 0755)
